@@ -9,7 +9,8 @@ from the real dispatcher + group bytecode - see checks/c22.py).
    FastSyncGroup.run / update_devices hand to roundtrip_packet (driven under virtual time with
    active / passive / missing answers) must be the reference frame with exactly the write
    datagrams' commands NOP;
-2. one pass: ~50 layouts (FMMU and direct, 0-4 write datagrams) x every subset of wrong / right
+2. one pass: ~60 layouts (FMMU and direct terminals, and terminals of every class of the package that
+   lays out its own datagrams by overriding allocate - found by introspection; 0-4 write datagrams) x every subset of wrong / right
    returned working counters x output enabled / disabled x frame arriving sterile / enabled;
 3. histories: OutputsFresh and PassesOK over all histories of the C22 model."""
 import itertools
@@ -41,7 +42,7 @@ def pass_cases(ctx, r, li, lay):
 
 
 def run(ctx):
-    n_lay = 14 if ctx.quick else 50
+    n_lay = 18 if ctx.quick else 56
     lays = FG.layouts(n_lay, ctx.rng)                       # deterministic list + a few random layouts
     cases, meta, rigs = [], [], []
     logging.disable(logging.CRITICAL)
